@@ -15,13 +15,23 @@ engine_of() {
   case "$1" in
     C01|C02|C03|C04|C05|C10|C14|C15|C16|C17) echo e1 ;;
     C11|C18) echo e1 ;;
-    C06|C07|C12|C13|C19|C20) echo e2 ;;
+    C06|C07|C12|C13|C19|C20) echo e1 ;;
     C08|C09) echo e3 ;;
     *) echo none ;;
   esac
 }
 
+build_e3() {
+  local tdir="${CARGO_TARGET_DIR}-loom"
+  local log="$tdir/build-e3.log"
+  mkdir -p "$tdir"
+  if ! (cd "$ROOT/e3" && CARGO_TARGET_DIR="$tdir" cargo build --release --offline >"$log" 2>&1); then
+    echo "MACHINERY-FAILURE: build of e3 failed (see $log)"; tail -n 40 "$log"; return 2
+  fi
+}
+
 build_pkg() { # $1 = package
+  if [ "$1" = e3 ]; then build_e3; return $?; fi
   local log="$CARGO_TARGET_DIR/build-$1.log"
   mkdir -p "$CARGO_TARGET_DIR"
   if ! (cd "$ROOT/harness" && cargo build --release --offline -p "$1" >"$log" 2>&1); then
@@ -32,7 +42,7 @@ build_pkg() { # $1 = package
 cmd="${1:-}"
 case "$cmd" in
   setup)
-    for p in e1; do build_pkg "$p" || exit 2; done
+    for p in e1 e3; do build_pkg "$p" || exit 2; done
     echo "setup ok"; exit 0 ;;
   check)
     id="${2:?property id}"; tier="${3:-quick}"
@@ -44,13 +54,17 @@ case "$cmd" in
       export VERIF_UNICODE_REF="$CARGO_TARGET_DIR/unicode_ref.txt"
       python3 "$ROOT/tools/gen_unicode_ref.py" > "$VERIF_UNICODE_REF" || { echo "MACHINERY-FAILURE: gen_unicode_ref.py failed"; exit 2; }
     fi
-    "$CARGO_TARGET_DIR/release/$eng" "$id" "$tier"
+    bin="$CARGO_TARGET_DIR/release/$eng"
+    [ "$eng" = e3 ] && bin="${CARGO_TARGET_DIR}-loom/release/e3"
+    "$bin" "$id" "$tier"
     exit $? ;;
   replay)
     id="${2:?property id}"; file="${3:?replay file}"
     eng="$(engine_of "$id")"
     build_pkg "$eng" || exit 2
-    "$CARGO_TARGET_DIR/release/$eng" replay "$id" "$file"
+    bin="$CARGO_TARGET_DIR/release/$eng"
+    [ "$eng" = e3 ] && bin="${CARGO_TARGET_DIR}-loom/release/e3"
+    "$bin" replay "$id" "$file"
     exit $? ;;
   *)
     echo "usage: $0 setup | check <id> <quick|thorough> | replay <id> <file>"; exit 2 ;;
